@@ -1,7 +1,7 @@
 (* C10 — concurrent requests are race-free, serialisable, and see immutable snapshots. *)
 From Coq Require Import Permutation.
 From VP Require Import Base Nonce NonceProofs Store StoreProofs Pool PoolProofs BalanceProofs Conc ConcProofs
-                       SerialProofs Snapshot SnapshotProofs Locks LocksProofs.
+                       SerialProofs SerialFull Snapshot SnapshotProofs Locks LocksProofs.
 From VPgen Require Import Facts.
 
 (* (a) every store operation is atomic: the in-memory driver takes its mutex before touching any
@@ -49,6 +49,33 @@ Theorem c10_serialisable_refuted_without_node_lock :
   sx_host_credit (sched_of [0; 1; 0; 1; 0; 1; 0; 1; 0; 1; 0; 1]%nat 61) = 2016.
 Proof. exact serialisable_refuted. Qed.
 Print Assumptions c10_serialisable_refuted_without_node_lock.
+
+(* ... and with it the positive statement: any interleaving of the store actions of the keep-alives
+   of pairwise distinct nodes (any number of them, any schedule, any clock readings) that runs
+   them all to completion leaves exactly the node records, peer sets, account links and balances
+   of a one-at-a-time execution - each request run alone to completion - in the order in which
+   the requests performed their UpdatePeers action.  (Keep-alives of the same node are kept
+   apart by the per-node lock, below; connects, linking and withdrawals are covered for the
+   ledger by [c10_ledger_any_schedule].) *)
+Theorem c10_keepalives_serialisable : forall cfg X E st0 us sch,
+  NoDup (map u_id us) -> NodeKeys st0 -> (forall u, In u us -> registered st0 (u_id u) = true) ->
+  let c' := run_sched X E {| c_st := st0; c_thr := map (uprog cfg) us |} sch in
+  forallb finished (c_thr c') = true ->
+  exists order st_ser,
+    Permutation (map fst order) (seq 0 (length us)) /\
+    ser_exec X E cfg us st0 order st_ser /\
+    s_nodes st_ser = s_nodes (c_st c') /\ s_peers st_ser = s_peers (c_st c') /\ s_link st_ser = s_link (c_st c') /\
+    forall j, b_credit (node_bal st_ser j) = b_credit (node_bal (c_st c') j).
+Proof. exact keepalives_serialisable. Qed.
+Print Assumptions c10_keepalives_serialisable.
+(* a keep-alive run alone completes, and is its UpdatePeers action followed by its credits *)
+Theorem c10_request_alone : forall X E cfg now st u,
+  NodeKeys st -> registered st (u_id u) = true ->
+  exists k, let c1 := run_sched X E {| c_st := st; c_thr := [uprog cfg u] |} (repeat (0%nat, now) k) in
+    forallb finished (c_thr c1) = true /\
+    np_eq (c_st c1) (fst (sstep X E now st (up_op u))) /\ s_link (c_st c1) = s_link st /\
+    forall j, b_credit (node_bal (c_st c1) j) = b_credit (node_bal st j) + delta_sum st (full_adds X E cfg st u now) j.
+Proof. exact solo_run. Qed.
 
 (* ... and the per-node lock itself: the keep-alives of one node go through a lock looked up (or
    created) in a map under the pool mutex and never removed from it (structural facts regenerated
